@@ -12,6 +12,7 @@ class Scalar (α : Type) extends Add α, Sub α, Mul α, Div α, Neg α where
   ofSci : Nat → Bool → Nat → α
   pi : α
   sqrt : α → α
+  cbrt : α → α
   sin : α → α
   cos : α → α
   tan : α → α
@@ -49,6 +50,7 @@ instance : Scalar Float where
   ofSci m s e := OfScientific.ofScientific m s e
   pi := 3.141592653589793
   sqrt := Float.sqrt
+  cbrt := Float.cbrt
   sin := Float.sin
   cos := Float.cos
   tan := Float.tan
